@@ -5,7 +5,8 @@
  *   - no exception (verif_exc stays 0; load_file is never reached with ALLOW_FILES off),
  *   - every read of the text is inside [s, s + s_size] (cbmc pointer checks on every in[0] / in[1], strto* argument check),
  *   - the loop terminates (decreases clause), the output needs at most 4 bytes per input character,
- *   - mask, when requested, has the length of the data and consists of 0xFF / 0x00 bytes only. */
+ *   - mask, when requested, has the length of the data (its bytes are 0xFF / 0x00: clause of the step contract).
+ * The output strings are the append-only model of stubs/C09_str.h (the parser never reads what it has appended). */
 #ifndef C09_PARSE_H
 #define C09_PARSE_H
 #include "contracts/C09_glue.h"
@@ -13,30 +14,28 @@
 
 
 #ifdef MASK_NULL
-#define PDS_MASK_REQ __CPROVER_requires(mask == 0)
+#define PDS_MASK_REQ __CPROVER_requires(mask_out == 0)
 #define PDS_MASK_ASSIGNS
 #else
-#define PDS_MASK_REQ __CPROVER_requires(__CPROVER_is_fresh(mask, sizeof(vstr))) \
-                     __CPROVER_requires(mask->cap <= VSTR_MAXCAP && mask->size <= mask->cap && mask->cap >= 4 * s_size) \
-                     __CPROVER_requires(__CPROVER_is_fresh(mask->data, mask->cap))
-#define PDS_MASK_ASSIGNS , mask->size, __CPROVER_object_whole(mask->data)
+#define PDS_MASK_REQ __CPROVER_requires(__CPROVER_is_fresh(mask_out, sizeof(OUT_STR))) \
+                     __CPROVER_requires(mask_out->cap <= VSTR_MAXCAP && mask_out->size <= mask_out->cap && mask_out->cap >= 4 * s_size + C09_WIN)
+#define PDS_MASK_ASSIGNS , mask_out->size, mask_out->nw, __CPROVER_object_upto(mask_out->w, C09_WIN)
 #endif
 
-void parse_data_string(vstr* data, const char* s, size_t s_size, vstr* mask, uint64_t flags)
+void parse_data_string(OUT_STR* data_out, const char* s, size_t s_size, OUT_STR* mask_out, uint64_t flags)
 __CPROVER_requires(s_size <= PDS_MAXTEXT)
 __CPROVER_requires(__CPROVER_is_fresh(s, s_size + 1))
 __CPROVER_requires(s[s_size] == 0)
-__CPROVER_requires(__CPROVER_is_fresh(data, sizeof(vstr)))
-__CPROVER_requires(data->cap <= VSTR_MAXCAP && data->size == 0 && data->cap >= 4 * s_size)
-__CPROVER_requires(__CPROVER_is_fresh(data->data, data->cap))
+__CPROVER_requires(__CPROVER_is_fresh(data_out, sizeof(OUT_STR)))
+__CPROVER_requires(data_out->cap <= VSTR_MAXCAP && data_out->size == 0 && data_out->nw == 0 && data_out->cap >= 4 * s_size + C09_WIN)
 PDS_MASK_REQ
 __CPROVER_requires((flags & ParseDataFlags_ALLOW_FILES) == 0)
 __CPROVER_requires(verif_exc == 0 && g_load_calls == 0)
 __CPROVER_ensures(verif_exc == 0 && g_load_calls == 0)
-__CPROVER_ensures(data->size <= 4 * s_size)
-__CPROVER_ensures(mask != 0 ==> mask->size == data->size)
-__CPROVER_ensures((mask != 0 && g_vk < mask->size) ==> PDS_IS_MASK_BYTE(mask->data[g_vk]))
-__CPROVER_assigns(verif_exc, g_end, g_st_calls, g_st_arg, g_st_end, g_st_base, g_st_kind, g_num, g_dbl, g_flt, g_load_calls,
-                  data->size, __CPROVER_object_whole(data->data) PDS_MASK_ASSIGNS);
+__CPROVER_ensures(data_out->size <= 4 * s_size)
+__CPROVER_ensures(mask_out != 0 ==> mask_out->size == data_out->size)
+__CPROVER_assigns(verif_exc, g_end, data, mask, in, chr, reading_string, reading_unicode_string, reading_comment, reading_multiline_comment,
+                  reading_high_nybble, reading_filename, big_endian, mask_enabled, allow_files, g_returned, g_n, g_c0, g_c1, g_c2, g_c3, g_st_calls, g_st_arg, g_st_end, g_st_base, g_st_kind, g_num, g_dbl, g_flt, g_load_calls,
+                  data_out->size, data_out->nw, __CPROVER_object_upto(data_out->w, C09_WIN) PDS_MASK_ASSIGNS);
 
 #endif
